@@ -170,6 +170,7 @@ func modeC03(thorough bool) {
 		})
 		ini.close()
 	}
+	goneScenario()
 	// a UDP client that advertises 65535 octets and an answer of 65508..65535 octets: legal for the advertised
 	// size, impossible as one datagram. The client still gets a response, and the listener keeps answering.
 	for k := 0; k < 2; k++ {
@@ -422,6 +423,32 @@ func c07BigMarker() {
 			in.send("udp", src, mkq(name), 3*time.Second, nil)
 		}
 	}
+}
+
+// goneScenario (C03, C20): clients that hang up with their query still in flight (its answer is there 2.5 s later), and
+// new connections right behind them, each with a quick query and one that is in flight for 3.3 s (idle time-out
+// 1 s): whatever the listener recycles of the connections that are gone, what is left of them (a late completion)
+// does not touch the connections that took their place - those keep their connection and get their answers
+func goneScenario() {
+	ini, err := newInst("gone", instOpts{listeners: []string{"tcp", "gnet", "tls"}, upstreams: map[string]string{"u1": "udp"}, rules: []ruleSpec{{Forward: "u1"}}, idleTimeout: 1})
+	if err != nil {
+		panic(err)
+	}
+	defer ini.close()
+	par(3, func(i int) {
+		lst := []string{"tcp", "gnet", "tls"}[i]
+		for round := 0; round < 2; round++ {
+			par(6, func(k int) {
+				ini.sendMay(lst, "", mkq(fmt.Sprintf("%s.r0t60d2500.gone.test.", uniq())), 60*time.Millisecond)
+			})
+			time.Sleep(40 * time.Millisecond)
+			par(6, func(k int) {
+				a, b := mkq(fmt.Sprintf("%s.r0t60d0.idle.test.", uniq())), mkq(fmt.Sprintf("%s.r0t60d3300.idle.test.", uniq()))
+				a.id, b.id = uint16(100+2*k), uint16(101+2*k)
+				ini.sendBatch(lst, "", []qspec{a, b}, 6*time.Second)
+			})
+		}
+	})
 }
 
 // ---------------------------------------------------------------- C07: cache keying and client groups
